@@ -1,18 +1,34 @@
 #[macro_use]
 pub mod common;
+pub mod c05;
 pub mod c07;
 pub mod c08;
 pub mod c09;
+pub mod c10;
 pub mod c11;
+pub mod c12;
+pub mod c12z;
+pub mod c13;
 pub mod c16;
+pub mod c19;
+pub mod chist;
 
 use crate::engine::CheckDef;
 
 pub fn all() -> Vec<(&'static str, fn() -> Vec<CheckDef>)> {
     vec![
-        ("C07", c07::checks as fn() -> Vec<CheckDef>),
+        ("C03", chist::c03_checks as fn() -> Vec<CheckDef>),
+        ("C04", chist::c04_checks),
+        ("C05", c05::checks),
+        ("C07", c07::checks),
         ("C08", c08::checks),
         ("C09", c09::checks),
+        ("C10", c10::checks),
         ("C11", c11::checks),
+        ("C12", c12::checks),
+        ("C13", c13::checks),
+        ("C14", chist::c14_checks),
+        ("C19", c19::checks),
+        ("C20", chist::c20_checks),
     ]
 }
